@@ -391,10 +391,10 @@ PROPS = {
     "C01": seq_loom_property(valgrind=True),
     "C02": seq_loom_property(),
     "C03": seq_loom_property(),
-    "C04": seq_property(),
+    "C04": seq_loom_property(),
     "C05": seq_loom_property(),
     "C06": seq_loom_property(),
-    "C07": seq_property(),
+    "C07": seq_loom_property(),
     "C08": seq_loom_property(),
     "C09": seq_loom_property(),
     "C10": seq_loom_property(),
